@@ -11,7 +11,7 @@ CHECKS = {
              text="Verdict exactness (iff) for always/sometimes properties is judged by TLC for every completed real run on generated labelled graphs; MCGraph invariants make TLC's own search agree with the operators used as oracle.",
              note="trusts TLC; completion is recognised from the configuration (no early-exit condition) and the run's own discoveries", ref="4/C02"),
  "C03": dict(technique="TLA+ observation validation: every path from discoveries() of all five strategies judged by Graph!ValidWitness",
-             text="Each reported path (states and actions) of every run, for all five strategies x finish conditions x targets x seeds x threads, is re-validated by TLC against the table model: real in-boundary execution, right last state, eventually-paths never meet the condition and are maximal (or close a cycle in simulation).",
+             text="Each reported path (states and actions) of every run, for all five strategies x finish conditions x targets x seeds x threads, is re-validated by TLC against the table model: real in-boundary execution, right last state, eventually-paths never meet the condition and are maximal (or close a cycle in simulation). The finished run's Checker::report text and discovery_classification are judged too: the Done line carries the checker's counts, exactly the discoveries are listed with the classification belonging to their expectation and a fingerprint path denoting the same states.",
              note="trusts TLC and the harness projection; interleavings sampled", ref="4/C03"),
  "C06": dict(technique="TLA+ whole-graph conformance: every reachable state of real ActorModels (all enabled actions, successors, ignored actions) judged by TLC against ActorSystem.tla; TLC explores the same systems (MCActorSystem) with design-level invariants",
              text="For every reachable state of thousands of generated table-actor systems x 3 network kinds x lossy x crash budgets x history hooks, the real model's actions()/next_state()/init_states()/next_steps() are compared by TLC with Enabled/Apply/IsIgnored/InitState of the specification; by induction the reachable graphs coincide, and TLC's own exploration finds the same number of states.",
